@@ -259,16 +259,33 @@ fn run_job_on_thread(job: Job, out: Arc<Mutex<std::io::Stdout>>, t_origin: Insta
         ),
     );
     let out2 = out.clone();
-    let h = std::thread::Builder::new()
-        .stack_size(stack)
-        .spawn(move || {
+    // thread creation can fail transiently under the address-space limit the worker runs with: retry, then report a
+    // harness error for this job (never a verdict)
+    let job = Arc::new(job);
+    let mut spawned = None;
+    for attempt in 0..200 {
+        let job = job.clone();
+        match std::thread::Builder::new().stack_size(stack).spawn(move || {
             let mut results = Vec::new();
             for _ in 0..job.repeat.max(1) {
                 results.push(run_once(&job));
             }
             results
-        })
-        .expect("spawn");
+        }) {
+            Ok(h) => {
+                spawned = Some(h);
+                break;
+            }
+            Err(_) => std::thread::sleep(Duration::from_millis(5 + attempt)),
+        }
+    }
+    let h = match spawned {
+        Some(h) => h,
+        None => {
+            emit(&out2, &format!("{{\"ev\":\"error\",\"id\":{},\"msg\":\"could not create the job thread\"}}", json_str(&id)));
+            return;
+        }
+    };
     {
         use std::os::unix::thread::JoinHandleExt;
         CUR_PTHREAD.store(h.as_pthread_t() as u64, Ordering::Release);
